@@ -57,11 +57,15 @@ def one(name):
 def main():
     names = sys.argv[1:] or sorted(p.name for p in (VERIF / 'seeded').iterdir() if (p / 'patch.diff').exists())
     res = {}
-    with ThreadPoolExecutor(max_workers=4) as ex:
+    with ThreadPoolExecutor(max_workers=int(os.environ.get('SEED_WORKERS', '4'))) as ex:
         for name, pid, verdict, detail in ex.map(one, names):
             print(f'{name:6s} {pid} {verdict:15s} {detail[:200]}', flush=True)
             res[name] = {'property': pid, 'verdict': verdict, 'detail': detail}
-    (VERIF / 'seeded' / 'REGRESSION.json').write_text(json.dumps(res, indent=1))
+    out = VERIF / 'seeded' / 'REGRESSION.json'
+    if sys.argv[1:] and out.exists():
+        # a partial run refreshes the entries of the seeds it was given
+        res = {**json.loads(out.read_text()), **res}
+    out.write_text(json.dumps(dict(sorted(res.items())), indent=1))
     return 0 if all(v['verdict'] in ('caught', 'superseded') for v in res.values()) else 1
 
 
